@@ -623,8 +623,21 @@ def do_replay(pid, path):
         print("implementation:", run_lines("impl", stage, [l], shards=1)[0][:2000])
         print("model:         ", run_lines("model", stage, [l], shards=1)[0][:2000])
     o = r.get("oracle")
-    if o and o.startswith("oracle-"):
-        print("oracle:        ", run_lines("impl", o, [l], shards=1)[0][:2000])
+    if o and o.startswith("fresh-process:"):
+        st = o.split(":", 1)[1]
+        outs = sorted(set(run_lines("impl", st, [l], shards=1)[0][:1500] for _ in range(6)))
+        print("implementation (%d fresh processes, %d distinct results):" % (6, len(outs)))
+        for x in outs:
+            print("   ", x)
+    elif o and not o.startswith("totality:"):
+        # every oracle (oracle-Cxx, reread, ...) is re-evaluated on the current implementation
+        print("oracle %s on the current implementation: %s" % (o, run_oracle("impl", o, [l])[0][:3000]))
+        if not stage:
+            for st in ("compile", "parse", "scan"):
+                if any(st == c[1] for c in cfg.get("corr", [])):
+                    print("implementation (%s):" % st, run_lines("impl", st, [l], shards=1)[0][:1500])
+                    print("model          (%s):" % st, run_lines("model", st, [l], shards=1)[0][:1500])
+                    break
     return 0
 
 
